@@ -185,7 +185,7 @@ impl<const N: u32> PxE2<{ N }> {
                 }
                 frac_a &= Self::mask();
 
-                exp_a <<= 28 - reg_a;
+                exp_a = if reg_a <= 28 { exp_a << (28 - reg_a) } else { exp_a >> (reg_a - 28) };
                 let mut u_z = Self::pack_to_ui(regime, exp_a as u32, frac_a);
 
                 //n+1 frac bit is 1. Need to check if another bit is 1 too if not round to even
@@ -312,7 +312,7 @@ impl<const N: u32> PxE2<{ N }> {
                 }
                 frac_a &= Self::mask();
 
-                exp_a <<= 28 - reg_a;
+                exp_a = if reg_a <= 28 { exp_a << (28 - reg_a) } else { exp_a >> (reg_a - 28) };
                 let mut u_z = Self::pack_to_ui(regime, exp_a as u32, frac_a);
 
                 //n+1 frac bit is 1. Need to check if another bit is 1 too if not round to even
@@ -434,7 +434,7 @@ impl<const N: u32> ops::Mul for PxE2<{ N }> {
                     frac_a = 0;
                 }
 
-                exp_a <<= 28 - reg_a;
+                exp_a = if reg_a <= 28 { exp_a << (28 - reg_a) } else { exp_a >> (reg_a - 28) };
                 let mut u_z = Self::pack_to_ui(regime, exp_a as u32, frac_a);
 
                 if bit_n_plus_one {
@@ -555,7 +555,7 @@ impl<const N: u32> ops::Div for PxE2<{ N }> {
                     frac_a = 0;
                 }
 
-                exp_a <<= 28 - reg_a;
+                exp_a = if reg_a <= 28 { exp_a << (28 - reg_a) } else { exp_a >> (reg_a - 28) };
                 let mut u_z = Self::pack_to_ui(regime, exp_a as u32, frac_a);
 
                 if bit_n_plus_one {
